@@ -192,6 +192,23 @@ def run(chk: Check) -> None:
         if it < 4:
             chk.sample(dict(case, out=out, out2=out2))
     chk.port_stat("spec: break classification + edit locality on implementation", ncases, nfail)
+    # ---- words that end a sentence in any reader's eyes: a lower-case word of three or more letters (any script) with '.', '!' or '?',
+    # followed by a capitalised word; each must be followed by a line break once the line is long enough ----
+    from flowmark import reformat_text
+    enders = ["here.", "done!", "why?", "caf\u00e9.", "na\u00efve!", "Stra\u00dfe.", "\u00e9t\u00e9?", "\u043c\u0438\u0440\u0435.", "\u03ba\u03cc\u03c3\u03bc\u03bf\u03c2.", "ma\u00f1ana!",
+              "fin.\"", "(ok\u00e9.)", "\u00fcber.", "r\u00e9sum\u00e9."]
+    nsp = 0
+    for e in enders:
+        for ctx in ("", "> ", "- "):
+            doc = ctx + "Some words that come first and " + e + " Then another sentence follows here.\n"
+            out = reformat_text(doc, width=88, semantic=True)
+            chk.count()
+            first = out.split("\n")[0]
+            if not first.rstrip().endswith(e):
+                nsp += 1
+                chk.fail("property", {"text": doc, "ender": e, "out": out, "corpus": True},
+                         f"no line break after the sentence end {e!r} (first line {first!r})", classify)
+    chk.port_stat("spec: plain sentence ends (letters of several scripts) are followed by a line break", len(enders) * 3, nsp)
 
 
 def replay(path: str) -> int:
